@@ -790,6 +790,11 @@ protected:
 				mask <<= 1;
 			}
 		}
+		if (sign()) { // the integer bits of a negative value are its floor: truncate toward zero as the native conversions do
+			for (unsigned i = 0; i < rbits; ++i) {
+				if (at(i)) { ll = static_cast<NativeInt>(static_cast<std::make_unsigned_t<NativeInt>>(ll) + 1u); break; }
+			}
+		}
 		return ll;
 	}
 	
